@@ -273,9 +273,9 @@ def St.advSys (st : St) (g : Nat) : St :=
   if g = 1 then { st with t := some 0, sys := 1 }
   else if g = 2 then
     let st1 := { st with
-      q := st.subs.flatMap (fun sb => sb.qInfo.flatMap CV.vals),
-      u := st.subs.flatMap (fun sb => sb.uInfo.flatMap CV.vals),
-      z := st.subs.flatMap (fun sb => sb.zInfo.flatMap CV.vals) }
+      q := st.subs.flatMap (fun (sb : Sub) => sb.qInfo.flatMap CV.vals),
+      u := st.subs.flatMap (fun (sb : Sub) => sb.uInfo.flatMap CV.vals),
+      z := st.subs.flatMap (fun (sb : Sub) => sb.zInfo.flatMap CV.vals) }
     let st2 := ((st1.notify st1.qDeps).notify st1.uDeps).notify st1.zDeps
     { st2 with sys := 2 }
   else { st with sys := g }
@@ -402,7 +402,7 @@ def legalS (st : St) : SOp → Bool
       | none => false
   | .allocAutoDV s inv v ud => match st.subs[s]? with
       -- the DV part throws before any side effect; otherwise the cache-entry part must not throw
-      | some sb => (excOf st (.allocAutoDV s inv v ud)).isSome || (4 < inv && 1 ≤ ud && ud ≤ 9)
+      | some _ => (excOf st (.allocAutoDV s inv v ud)).isSome || (4 < inv && 1 ≤ ud && ud ≤ 9)
       | none => false
   | .allocCE s _ _ _ => s < st.subs.length
   | .allocCEpre s _ _ _ _ _ dvs ces _ => match st.subs[s]? with
